@@ -94,7 +94,7 @@ NOT_APPLICABLE = [
 # Clauses added with the second round of seeded changes and the defects D11-D17 (inserted before the "Not decided" part)
 ADDENDA = {
  "C01": "Also: hand-written accumulation helpers (gru._backprop) accumulate and never overwrite; ops overriding backward() reach the generic loop on every path or serve every variable.",
- "C03": "Also: Tensor.__array_ufunc__ evaluates forwarded ufuncs through getattr(ufunc, method) (outer/reduce/accumulate honoured).",
+ "C03": "Also: Tensor.__array_ufunc__ evaluates forwarded ufuncs through getattr(ufunc, method) (outer/reduce/accumulate honoured); a parameter that a function inspects with isinstance is still read when it is of none of the tested types (CFG specialised with every such test false): no legal argument is silently ignored; a where= mask given as a Tensor is unwrapped (D19, repaired).",
  "C04": "Also: a wholesale rebuild of a _view_children list maps the same tensor's own children (D15, repaired).",
  "C05": "Also: building the placeholder graph leaves the originals untouched; dtype-kind tests (integer-array index detection of SetItem/GetItem) name abstract scalar classes, never one width (D16, repaired); index classifiers decide from the converted element only, never from its Python type; the routing ops (SetItem, UnView, ApplyMask) and the ufunc where-mask in Operation.backward drop excluded entries by assignment/selection, never by scaling with a 0/1 mask -- 0 * nan = nan leaked non-finite gradients into overwritten / masked-out contents (D28, three sites repaired).",
  "C06": "Also: any copy made of the first contribution keeps the producer's layout (np.copy / order='K').",
@@ -104,7 +104,7 @@ ADDENDA = {
  "C11": "Also: np.sign belongs to the refusing family; forwarded ufuncs are evaluated as getattr(ufunc, method).",
  "C14": "Also: the caller's seed enters only through asarray(...); a rejected seed does not clear the graph; array-ness dataflow: between np.asarray and the store no step (array arithmetic, ufunc call, reduction, unknown call) can turn a 0-d array back into a NumPy scalar (D12, repaired).",
  "C15": "Also: the untracked in-place path forwards op, operands, op_args, op_kwargs and constant; module initialisation leaves both switches literal booleans on every path.",
- "C16": "Also: strides are derived from shape x itemsize only, never from arr.strides (D11, repaired); window_shape/step/dilation entries are tested strictly positive before use; running max/min accumulators in nnet code start from the identity; no forward pass narrows an operand to a sibling operand's dtype.",
+ "C16": "Also: in nnet code a parameter inspected with isinstance is still read when it is of none of the tested types (an ndarray seed state where a Tensor is tested); strides are derived from shape x itemsize only, never from arr.strides (D11, repaired); window_shape/step/dilation entries are tested strictly positive before use; running max/min accumulators in nnet code start from the identity; no forward pass narrows an operand to a sibling operand's dtype.",
  "C17": "Also: creation routines hand their parameters to NumPy as the caller gave them (no rebinding other than unwrapping a Tensor).",
 }
 for _c in CHECKS:
